@@ -208,9 +208,6 @@ func (s *scheduler) pickNext(self *goroutine, finished bool) {
 			if s.i.clock != nil && s.i.clock.fireNext() {
 				continue
 			}
-			if finished && s.allDoneButMain() {
-				return
-			}
 			desc := ""
 			for _, g := range s.gs {
 				if !g.done {
@@ -268,7 +265,12 @@ func (i *interpreter) yield(what string) {
 	en := s.enabled()
 	timerOpt := 0
 	if i.clock != nil && i.clock.hasPending() && s.timerFires < s.maxTimerFires {
-		timerOpt = 1
+		// time may pass between any two operations, but it is only observable through
+		// channel operations (timer channels, context.Done): offer the choice there
+		switch what {
+		case "send", "recv", "select", "close", "go":
+			timerOpt = 1
+		}
 	}
 	if len(en) <= 1 && timerOpt == 0 {
 		return
